@@ -76,6 +76,8 @@ def expr(node, env, calls=()):
             return "(ELog %s)" % expr(node.args[0], env, calls)
         if is_np(node.func, "sqrt") and len(node.args) == 1:
             return "(ESqrt %s)" % expr(node.args[0], env, calls)
+        if is_np(node.func, "power") and len(node.args) == 2:
+            return "(EPow %s %s)" % (expr(node.args[0], env, calls), expr(node.args[1], env, calls))
         if isinstance(node.func, ast.Name) and node.func.id == "len" and len(node.args) == 1 and isinstance(node.args[0], ast.Name):
             return "(ELen %s)" % S(node.args[0].id)
         if isinstance(node.func, ast.Name) and node.func.id in calls:
